@@ -234,6 +234,33 @@ def apply(state, op, ctx, case):
             m2["beta"] = joined.beta  # concatenate is defined on the base class; beta is not a per-sample field
         _agree(joined, m2, ctx, case, "concatenate", weights_exact=False)
         return
+    if kind == "join_other":
+        # the set is joined with another set of the same class / namespace / parameters that lacks one of its optional fields
+        present = [f for f in ("log_likelihood", "log_prior", "log_q") if model[f] is not None]
+        if n < 1 or not present:
+            return
+        drop = present[op["drop"] % len(present)]
+        C = type(real)
+        kw = {f: env.to_np(getattr(real, f))[::-1].copy() for f in present if f != drop}
+        if model["cls"] == "SMCSamples":
+            kw["beta"] = real.beta
+        other = C(x=env.to_np(real.x)[::-1].copy(), parameters=list(model["params"]), xp=real.xp, dtype=real.dtype, **kw)
+        joined = C.concatenate([real, other])
+        if len(joined.x) != 2 * n:
+            ctx.fail("join:size", f"joined set has {len(joined.x)} rows for {n}+{n}", case)
+        for f in ("log_likelihood", "log_prior", "log_q"):
+            v = getattr(joined, f)
+            if v is None:
+                continue
+            # whatever the rule for a field that one piece lacks: a per-sample field that is present has one value per row
+            if len(v) != len(joined.x):
+                ctx.fail("join:field-length", f"{f} of the joined set has {len(v)} values for {len(joined.x)} rows "
+                                              f"(one of the pieces had no {drop})", case, field=f)
+            elif f != drop:
+                want = np.concatenate([model[f], model[f][::-1]])
+                if not _eq(env.to_np(v), want):
+                    ctx.fail(f"join:{f}", f"{f} of the joined set is not the concatenation of the pieces' {f}", case, field=f)
+        return
     if kind == "pickle":
         clone = pickle.loads(pickle.dumps(real))
         _agree(clone, model, ctx, case, "pickle")
@@ -259,7 +286,7 @@ def run_case(case, ctx):
 
 # ---- generators --------------------------------------------------------------------------------
 
-_names = st.lists(st.sampled_from(["a", "b", "m_1", "theta", "x_0", "Zeta", "α", "q"]), min_size=5, max_size=5, unique=True)
+_names = st.lists(st.sampled_from(["a", "b", "m_1", "theta", "x_0", "Zeta", "α", "q", "weights", "log_w", "evidence"]), min_size=5, max_size=5, unique=True)
 
 
 @st.composite
@@ -302,6 +329,11 @@ def machine(tier, ctx, last):
         @rule(i=st.integers(0, 1000), idx=_idx)
         def select(self, i, idx):
             self.do({"op": "select", "i": i, "idx": idx})
+
+        @precondition(lambda self: self.state["pairs"])
+        @rule(i=st.integers(0, 1000), drop=st.integers(0, 2))
+        def join_other(self, i, drop):
+            self.do({"op": "join_other", "i": i, "drop": drop})
 
         @precondition(lambda self: self.state["pairs"])
         @rule(i=st.integers(0, 1000), cuts=st.lists(st.integers(0, 1000), min_size=1, max_size=4))
